@@ -40,7 +40,7 @@ Proof.
   destruct H as [<- | [<- | []]]; (split; oc; rewrite ?known_b1, ?known_b4 by assumption; cbv [maxl fold_left]; change (Z.max 1 1) with 1; rewrite ?Z.max_r by lia; reflexivity).
 Qed.
 
-Definition pool_classes := ["AveragePooling2D"; "AvgPool2D"].
+Definition pool_classes := ["AveragePooling2D"; "AvgPool2D"; "QAveragePooling2D"].
 Lemma link_pool : forall cls, In cls pool_classes -> forall i b' ho wo co ph pw w g,
   gen_opcount cls i [b'; ho; wo; co] w (Some [ph; pw]) g = oc_pool (ho * wo) co ph pw.
 Proof. intros cls H; cbv [pool_classes In] in H; repeat (destruct H as [<- | H]; [oc|]); destruct H. Qed.
